@@ -956,6 +956,9 @@ class NPProxy:
         return np.diag(v, k)
 
 
+_ACTIVE = []          # stack of (modules patched, proxy) of the sessions that are open
+
+
 @contextlib.contextmanager
 def session(module_names=None, extra=None):
     """Replace `np` in the given (default: all loaded) phonopy.* modules by an NPProxy."""
@@ -968,8 +971,40 @@ def session(module_names=None, extra=None):
             continue
         if getattr(mod, 'np', None) is np:
             saved.append(mod); mod.np = proxy
+    _ACTIVE.append((saved, proxy))
     try:
         yield proxy
     finally:
+        _ACTIVE.pop()
         for mod in saved:
             mod.np = np
+
+
+@contextlib.contextmanager
+def suspended():
+    """Temporarily leave every open symbolic session (real numpy everywhere, no engine): concrete replays of a
+    counterexample must run on the unpatched code even when they are triggered from inside a session."""
+    for saved, proxy in _ACTIVE:
+        for mod in saved:
+            mod.np = np
+    old_engine = Engine.cur; Engine.cur = None
+    old_linalg = NPProxy.linalg
+    try:
+        yield
+    finally:
+        Engine.cur = old_engine
+        NPProxy.linalg = old_linalg
+        for saved, proxy in _ACTIVE:
+            for mod in saved:
+                mod.np = proxy
+
+
+def outside_session(fn):
+    """decorator for replay functions"""
+    import functools
+
+    @functools.wraps(fn)
+    def wrapped(*a, **kw):
+        with suspended():
+            return fn(*a, **kw)
+    return wrapped
